@@ -410,6 +410,15 @@ def _check_wrap(r3, key, prog, b, p, rank_e, subst, nx, nt, acc, astuple, site, 
     item = subst(rnk.a[1][0])
     rv = strip_refs(rnk.a[1][1]) if len(rnk.a[1]) > 1 else None
     fp = format_parts(None, item)
+    if fp is None and closure is not None:
+        # the same concatenation assembled in place inside the mapping closure: String::with_capacity(..) + push_str × 3
+        it0 = strip_refs(rnk.a[1][0])
+        cb_ = prog.body(closure)
+        if it0.k == "call" and isinstance(it0.a[2], int) and it0.a[2] < len(cb_.blocks) and cb_.blocks[it0.a[2]]["term"]["k"] == "call":
+            from engine.analyses import built_string_parts
+            bp = built_string_parts(cb_, cb_.blocks[it0.a[2]]["term"]["dest"]["l"])
+            if bp is not None:
+                fp = [(k_, subst(v_) if k_ == "val" else v_) for (k_, v_) in bp]
     okr = rv is not None and _is_pair_part(rv, 1, nx)
     if fp is None or len(fp) != 3 or any(x[0] != "val" for x in fp):
         r3.violation(key, "the emoji candidate is not `preceding ++ emoji ++ trailing`: %r" % (fp,), site)
